@@ -616,7 +616,7 @@ def _hier_cut(atoms, edges, labels, parts, desc):
             'dord': [[a, [n + str(o) for n, o in desc[a]]] for a in desc]}
 
 
-def layered_case(rng, nmax=9, n_intermediate=None, coarse_last=False, squash=False, reuse_names=False):
+def layered_case(rng, nmax=9, n_intermediate=None, coarse_last=False, squash=False, reuse_names=False, virtual=False):
     """One C06 input.  Levels: atoms < parts F (level 0 blocks) < groups (level 1) < ... ; returns the
     layered string (base + intermediate coarse fragment levels + last level) and the flat two-level string."""
     m = rand_molecule(rng, nmax=nmax)
@@ -667,6 +667,7 @@ def layered_case(rng, nmax=9, n_intermediate=None, coarse_last=False, squash=Fal
     graphs = [g0]
     names = [dict(part_names)]
     used_squash = False
+    used_virtual = False
     level_defs = []      # fragment definitions of level j (blocks of level j written over level j-1 nodes), j >= 1
     for j in range(1, n_int + 1):
         gprev = graphs[-1]
@@ -721,6 +722,14 @@ def layered_case(rng, nmax=9, n_intermediate=None, coarse_last=False, squash=Fal
             for extra_id, a, b, o in extra_nodes.get(bi, []):
                 blk.append(extra_id)
                 sub_edges[(extra_id, b)] = o
+            if virtual and (j >= 2 or not coarse_last) and rng.random() < 0.5:
+                # a virtual site inside a fragment of an intermediate level: a node with no fragment at the
+                # next level, held by an order-0 edge; it produces no fine nodes one level down
+                vid = 200000 + 1000 * j + bi
+                names[-1][vid] = 'VS%d' % (j * 10 + bi)
+                sub_edges[(vid, rng.choice(blk))] = 0
+                blk.append(vid)
+                used_virtual = True
             t, ol = render_coarse_fragment(rng, names[-1], blk, sub_edges, cdesc)
             if t is None:
                 return None
@@ -737,7 +746,7 @@ def layered_case(rng, nmax=9, n_intermediate=None, coarse_last=False, squash=Fal
                                       {(a, b): d['order'] for a, b, d in top.edges(data=True)})
     # the top cut lists its parts in the order of the base-graph nodes; no shared nodes, one name space
     hier[-1] = dict(hier[-1], parts=[hier[-1]['parts'][p] for p in top_numbering])
-    hier_out = None if (used_squash or reuse_names) else {'cuts': list(reversed(hier if not coarse_last else hier[1:]))}
+    hier_out = None if (used_squash or reuse_names or used_virtual) else {'cuts': list(reversed(hier if not coarse_last else hier[1:]))}
     flat_base, _ = render_base(rng, [part_names[i] for i in range(len(parts))],
                                {(a, b): d['order'] for a, b, d in g0.edges(data=True)})
 
@@ -752,11 +761,11 @@ def layered_case(rng, nmax=9, n_intermediate=None, coarse_last=False, squash=Fal
         expect = {'nodes': [[i, part_names[i]] for i in range(len(parts))],
                   'edges': [[a, b, d['order']] for a, b, d in g0.edges(data=True)]}
         return {'layered': layered, 'flat': flat, 'coarse_last': True, 'levels': n_int, 'expect_cg': expect,
-                'nparts': len(parts), 'squash': used_squash, 'reuse_names': reuse_names, 'hier': hier_out}
+                'nparts': len(parts), 'squash': used_squash, 'reuse_names': reuse_names, 'hier': hier_out, 'virtual': used_virtual}
     layered = base + '.' + '.'.join(layers + [block(last_defs)])
     flat = flat_base + '.' + block(last_defs)
     return {'layered': layered, 'flat': flat, 'coarse_last': False, 'levels': n_int + 1, 'mol': mol_dump(m),
-            'nparts': len(parts), 'squash': used_squash, 'reuse_names': reuse_names, 'hier': hier_out}
+            'nparts': len(parts), 'squash': used_squash, 'reuse_names': reuse_names, 'hier': hier_out, 'virtual': used_virtual}
 
 
 def block_case(rng):
